@@ -525,6 +525,9 @@ func (f *Frame) exec(c *cursor, in ssa.Instruction) bool {
 		// ghost: a new channel is open
 		e.famSort["Chan.closed"] = arraySort(SInt, SBool)
 		e.setFamily(st, "Chan.closed", store(e.family(st, "Chan.closed", arraySort(SInt, SBool)), r, tFalse))
+		// ghost: its capacity (never changes; chancap(ch) in contracts)
+		e.famSort["Chan.cap"] = arraySort(SInt, SInt)
+		e.assume(eq(sel(e.family(f.entry, "Chan.cap", arraySort(SInt, SInt)), r, SInt), f.asInt(f.val(x.Size))))
 		return false
 	case *ssa.MakeSlice:
 		ln, cp := f.asInt(f.val(x.Len)), f.asInt(f.val(x.Cap))
